@@ -113,7 +113,11 @@ func c07Gen(rng *rand.Rand) c07Prog {
 		if rng.IntN(3) == 0 {
 			nestID++
 			it := c07Item{kind: []string{"block", "if", "while", "else", "else-if", "else-if-else", "match-arm", "match-default", "for"}[rng.IntN(9)]}
-			for j := 0; j < 1+rng.IntN(3); j++ {
+			nb := 1 + rng.IntN(3)
+			if rng.IntN(3) == 0 {
+				nb = 3 + rng.IntN(5) // long nested bodies: more statements inside than before the construct
+			}
+			for j := 0; j < nb; j++ {
 				it.body = append(it.body, mkOp(nestID))
 			}
 			pr.items = append(pr.items, it)
@@ -172,8 +176,10 @@ func (p *c07Prog) classify() (string, string) {
 			if u > i {
 				return true
 			}
-			if ops[i].loop != 0 && ops[u].loop == ops[i].loop {
-				return true // a use anywhere in the same loop happens again in a later iteration
+			if ops[i].loop != 0 && ops[u].loop == ops[i].loop && loans[r].scope != ops[i].nest {
+				// a use anywhere in the same loop happens again in a later iteration — unless the
+				// reference is declared inside that loop body, where every iteration has its own
+				return true
 			}
 		}
 		return false
